@@ -21,6 +21,10 @@ the model's scope and are counted, not replayed) this module
   3. lets SrcLaneR.replay (Coq, vm_compute) execute the actions on SrcLane.begin / SrcLane.gstep (see Model/SrcLaneR.v): every
      action must be enabled in the model and produce the recorded values; the boolean invariant inv_b is evaluated on every
      state; the model must end with the recorded final words, all threads idle.
+The search budgets (joint_order: number of search nodes; the Coq scheduler: look-ahead depths DEPTHS, window) are counts, not
+wall-clock limits: the same recording gives the same verdict on a loaded machine.  The only wall-clock limit is the one of a
+Coq evaluation (coq_replay); a chunk that hits it is evaluated once more alone with ten times the limit.  There are no
+environment knobs.
 Nothing here is trusted for soundness of a successful replay beyond parsing: a wrong abstraction or order can only make the
 replay fail."""
 import re
@@ -31,9 +35,8 @@ import driver
 
 IMPORTS = ["Word", "Conc", "Gen_consts", "Gen_dqstate", "SrcData", "SrcLane", "SrcLaneR"]
 M64 = 1 << 64
-import os
-DEPTHS = [int(x) for x in os.environ.get('C15_DEPTHS', '24,96,400').split(',') if x]
-PLACE_LOADS = os.environ.get('C15_PLACE', '0') == '1'
+DEPTHS = [24, 96, 400]          # look-ahead depths of the Coq scheduler's passes (SrcLaneR.pick2)
+PLACE_LOADS = False            # place ds_pending_data observations by stamps (only used by one fall-back strategy)
 SH = dict(Idle=0, POut=1, PM_flags=2, PM_op=3, PS_flags=4, PS_pend=5, PS_wake=6, PS_rootpush=7, PC_set=8, PU_rmw=9, PR_rmw=10,
           PR_flags=11, PR_pend=12, PR_wake=13, PW_lock=14, PW_susp=15, PW_flags=16, PW_pend=17, PW_latch=18, PW_call=19,
           PW_incall=20, PW_post=21, PW_post2=22, PW_unlock=23, PW_xor=24, PW_fin=25, PA_rmw=26, PA_role=27, PW_inst=28, PA_inst=29)
@@ -872,6 +875,7 @@ def coq_replay(name, jobs, window=16, timeout=900, workers=4, chunk_actions=6000
 
     def z(x):
         return "(%d)" % x if x < 0 else str(x)
+    name0, timeout0 = name, timeout
 
     def one(arg):
         ci, part = arg
@@ -887,7 +891,7 @@ def coq_replay(name, jobs, window=16, timeout=900, workers=4, chunk_actions=6000
             kn = ["SrcData.KindAdd", "SrcData.KindOr", "SrcData.KindReplace"][kind]
             tb = "true" if troot else "false"
             calls.append("replay (mkCfg %s %s %s %s %s) %s false %d [%s] %s qs%d ord%d" % (
-                kn, tb, "true" if starve else "false", tb, tb, z(st0), window, "; ".join("%d%%nat" % d for d in (DEPTHS if depths is None else depths)), "false" if os.environ.get("C15_NOFB") else "true", k, k))
+                kn, tb, "true" if starve else "false", tb, tb, z(st0), window, "; ".join("%d%%nat" % d for d in (DEPTHS if depths is None else depths)), "true", k, k))
         body = ["Definition A (t : Z) (m : mact) : sact := {| s_tid := t; s_act := m |}."] + defs
         body.append("Eval vm_compute in [%s]." % "; ".join(calls))
         ok, vals, raw = driver.coq_eval("%s_%d" % (name, ci), IMPORTS, "\n".join(body) + "\n", timeout=timeout)
@@ -897,10 +901,23 @@ def coq_replay(name, jobs, window=16, timeout=900, workers=4, chunk_actions=6000
         if len(got) != len(part):
             raise RuntimeError("coq replay: %d results for %d rounds" % (len(got), len(part)))
         return got
+    def guarded(arg):
+        try:
+            return one(arg), None
+        except RuntimeError as ex:
+            return None, str(ex)
     out = []
     with ThreadPoolExecutor(max_workers=workers) as ex:
-        for got in ex.map(one, chunks):
-            out += got
+        results = list(ex.map(guarded, chunks))
+    for arg, (got, err) in zip(chunks, results):
+        if err is not None:
+            # time or memory limit under load: this chunk once more, alone, ten times the limit; a second failure is reported
+            timeout = 10 * timeout0
+            name = name0 + "_alone"
+            got = one(arg)
+        out += got
+    if len(out) != len(jobs):
+        raise RuntimeError("coq replay: %d results for %d rounds" % (len(out), len(jobs)))
     return out
 
 
@@ -941,6 +958,9 @@ def replay_text(text, label, C):
 
 def judge(meta, results, C):
     mism, nrep = [], 0
+    if len(meta) != len(results):
+        return [{"what": "global replay on SrcLane.gstep failed: %d results for %d rounds" % (len(results), len(meta)),
+                 "detail": {}}], 0
     for m, r in zip(meta, results):
         b = m["b"]
         done, left, stv, pe, rootq, idle, ok, tok, canc, ncalls, nmerged, stuck, stuck_sh, stuck_left = r[:14]
@@ -1015,6 +1035,8 @@ def replay_all(name, jobs, meta, C):
             continue
         retried += len(jobs2)
         res2 = coq_replay("%s_retry%d" % (name, si), jobs2, window=st["window"], depths=st["depths"])
+        if len(res2) != len(idx):
+            raise RuntimeError("coq replay: %d results for %d retried rounds" % (len(res2), len(idx)))
         for (k, b), r in zip(idx, res2):
             if r[1] == 0:
                 res[k] = r
